@@ -387,12 +387,24 @@ impl ConvexCell<WithoutFaces> {
                 // Do the equivalent in-sphere test to determine whether a vertex is clipped
                 let dual = self.vertices[i].dual;
                 let a = simulation_boundary.iloc(self.loc);
-                let b = simulation_boundary
-                    .iloc(self.clipping_planes[dual[0]].right_loc(self.idx, generators));
-                let c = simulation_boundary
-                    .iloc(self.clipping_planes[dual[1]].right_loc(self.idx, generators));
-                let d = simulation_boundary
-                    .iloc(self.clipping_planes[dual[2]].right_loc(self.idx, generators));
+                let right_iloc = |half_space: &HalfSpace| {
+                    let mut right =
+                        simulation_boundary.iloc(half_space.right_loc(self.idx, generators));
+                    if half_space.right_idx.is_none() && right == a {
+                        // The generator lies on this wall of the simulation volume and coincides
+                        // with its own mirror image, which would make the in-sphere test
+                        // degenerate. Use the grid point just outside the wall instead (i.e. treat
+                        // the generator as lying half a grid spacing inside the wall).
+                        let n = half_space.normal();
+                        right[0] -= n.x as i64;
+                        right[1] -= n.y as i64;
+                        right[2] -= n.z as i64;
+                    }
+                    right
+                };
+                let b = right_iloc(&self.clipping_planes[dual[0]]);
+                let c = right_iloc(&self.clipping_planes[dual[1]]);
+                let d = right_iloc(&self.clipping_planes[dual[2]]);
                 let v = simulation_boundary.iloc(p.right_loc(self.idx, generators));
                 clip = in_sphere_test_exact(&a, &b, &c, &d, &v);
                 #[cfg(feature = "verif_hooks")]
